@@ -174,7 +174,7 @@ def check_assert_max_spread(ctx, model, tag):
     for b, t in v.calls_to(r"as std::ops::Mul<cosmwasm_std::Decimal>>::mul$"):
         a0 = arg_origins(v, b, t, 0)
         a1 = arg_origins(v, b, t, 1, taint=True)
-        if a0 and all(o.kind == "param" and o.a == 3 for o in a0) and any(o.kind == "call" and o.a.endswith("Decimal::inv") or "inv" in o.a for o in a1) and any(
+        if a0 and all(o.kind == "param" and o.a == 3 for o in a0) and any(o.kind == "call" and ("::inv" in o.a) for o in a1) and any(
                 o.kind == "param" and o.a == 1 for o in a1):
             okexp = True
     ctx.ob("C15-M2", "%s|%s|expected=offer*inv(belief)" % (AMS, tag), okexp, "expected return computed as offer_amount * belief_price.inv(): %s" % okexp, v.where())
